@@ -31,10 +31,8 @@ def subst(alt, ns, num, charsub):
             return None, uses_num
         val = ns[key]
         if fmt:
-            words = val.split()
-            val = ' '.join(words[:max(1, int(fmt))]) if words else None
-            if val is None:
-                return 'RAISE', uses_num
+            # limited to its first n words (an empty or blank value has none: it stays empty)
+            val = ' '.join(val.split()[:int(fmt)])
         out += val
     out += alt[pos:]
     return out, uses_num
@@ -79,8 +77,6 @@ def reference(static, wild, requests, charsub, ext, reserved, prefix='', suffix=
                 name, uses = subst(alt, ns, num, charsub)
                 if name is None:
                     continue
-                if name == 'RAISE':
-                    return out + ['IndexError']
                 if uses:
                     num += 1
                 if not os.path.splitext(name)[-1]:
@@ -108,9 +104,6 @@ def real(static, wild, requests, charsub, ext, reserved, prefix='', suffix=''):
         except ValueError:
             out.append('ValueError')
             break
-        except IndexError:
-            out.append('IndexError')
-            break
     return out
 
 
@@ -124,7 +117,7 @@ def check_gen(w):
     exp = reference(*args)
     if got != exp:
         return False, 'template %r: issued %r, reference model %r' % (w, got, exp)
-    names = [g for g in got if g not in ('ValueError', 'IndexError')]
+    names = [g for g in got if g != 'ValueError']
     if len(set(names)) != len(names) or set(names) & set(w.get('reserved', [])):
         return False, 'template %r: duplicate or reserved name in %r' % (w, got)
     if w.get('charsub'):
